@@ -10,6 +10,8 @@ import (
 	"bytes"
 	"fmt"
 	"io"
+	"os"
+	"path/filepath"
 	"regexp"
 	"sort"
 	"strings"
@@ -39,7 +41,9 @@ func c15Text(vals []uint64, race bool) []byte {
 	}
 	fmt.Fprintf(&b, "==================\nWARNING: DATA RACE\nRead at 0x00c000014100 by goroutine 7:\n  main.f0(%s, {%s})\n      /a/b.go:1 +0x1\n  main.f1(%s)\n      /a/b.go:2 +0x1\n\n", v(0), v(1), v(2))
 	fmt.Fprintf(&b, "Previous write at 0x00c000014100 by goroutine 8:\n  main.g0(%s, {{%s}, 0x1})\n      /a/b.go:3 +0x1\n\n", v(3), v(4))
-	fmt.Fprintf(&b, "Goroutine 7 (running) created at:\n  main.m(%s)\n      /a/b.go:9 +0x1\n==================\n", v(5))
+	// creation stacks carry arguments in race reports: the second goroutine's repeats two
+	// values of its own operation stack
+	fmt.Fprintf(&b, "Goroutine 7 (running) created at:\n  main.m(%s)\n      /a/b.go:9 +0x1\n\nGoroutine 8 (finished) created at:\n  main.n(%s, {%s})\n      /a/b.go:11 +0x1\n  main.o(%s)\n      /a/b.go:12 +0x1\n==================\n", v(5), v(3), v(4), v(3))
 	return []byte(b.String())
 }
 
@@ -213,7 +217,7 @@ func TestVerifC15(t *testing.T) {
 	r := h.Start("C15")
 	defer r.Finish(func(s string) { t.Error(s) })
 	slots := r.Pick(6, 7)
-	r.Set("rule", fmt.Sprintf("all assignments of a value from {5, 512KiB, 512KiB+1, P1, P2, P3, 2^63-2, 2^63-1} to %d argument slots laid out over 3 goroutines x <=2 frames x top-level / aggregate / nested-aggregate positions (8^%d dumps) plus the same over a race report's operation stacks (8^5); parsed with naming on and off; every 8th assignment also with a malformed trailing goroutine and with a reader failing after/with the data (snapshot returned together with an error); relational labelling laws (same value same name, injective, recurring pointers named, names exactly #1..#k, non-pointers unnamed, first-goroutine pointers numbered first, ascending inside each group; off: no names and otherwise equal). non-trivial = at least two slots hold the same pointer-classified value; distinct = the assignment", slots, slots))
+	r.Set("rule", fmt.Sprintf("all assignments of a value from {5, 512KiB, 512KiB+1, P1, P2, P3, 2^63-2, 2^63-1} to %d argument slots laid out over 3 goroutines x <=2 frames x top-level / aggregate / nested-aggregate positions (8^%d dumps) plus the same over a race report's operation stacks, the second goroutine's creation stack repeating two of its values (8^5); plus 5^6 (thorough 8^6) assignments over frames whose sources exist, scanned with path guessing and source analysis on (classification, names and laws as with naming alone); parsed with naming on and off; every 8th assignment also with a malformed trailing goroutine and with a reader failing after/with the data (snapshot returned together with an error); relational labelling laws (same value same name, injective, recurring pointers named, names exactly #1..#k, non-pointers unnamed, first-goroutine pointers numbered first, ascending inside each group; off: no names and otherwise equal). non-trivial = at least two slots hold the same pointer-classified value; distinct = the assignment", slots, slots))
 	r.Set("assumptions", []string{"whether a pointer seen once is named is left open, as in the statement"})
 	if rv := r.ReplayFile(); rv != nil {
 		in := rv.Input()
@@ -287,5 +291,70 @@ func TestVerifC15(t *testing.T) {
 		}
 		vals[5] = vals[0]
 		run(n, vals, true)
+	}
+	// with path guessing and source analysis on, over frames whose sources exist: the
+	// analysis stage runs after the naming and must leave classification and names alone
+	root, err := os.MkdirTemp(os.Getenv("VERIF_SCRATCH"), "c15src")
+	if err != nil {
+		r.Note("no scratch directory: the analysed part is skipped")
+		return
+	}
+	defer os.RemoveAll(root)
+	if rp, err := filepath.EvalSymlinks(root); err == nil {
+		root = rp
+	}
+	_, full := c03SourceSeeds(root)
+	avals := []uint64{5, 512*1024 + 1, 0xc000012340, 0xc000045678, 1<<63 - 2}
+	if r.Thorough() {
+		avals = c15Values
+	}
+	na := len(avals)
+	atotal := na * na * na * na * na * na
+	for n := 0; n < atotal; n++ {
+		if !r.MineIdx(n) || r.Expired() {
+			continue
+		}
+		vs := make([]uint64, 6)
+		x := n
+		for i := range vs {
+			vs[i] = avals[x%na]
+			x /= na
+		}
+		in := []byte(fmt.Sprintf("goroutine 1 [running]:\nexample.com/p.Work(0x%x, {0x%x, 0x%x}, 0x%x)\n\t%s/gp/src/example.com/p/p.go:4 +0x1\nexample.com/m.(*T).Run(0x%x, 0x2, {0x%x, 0x%x, 0x%x})\n\t%s/mod/m.go:6 +0x2\n\ngoroutine 7 [select]:\nexample.com/p.Work(0x%x, {0x%x, 0x%x}, 0x5)\n\t%s/gp/src/example.com/p/p.go:4 +0x1\n",
+			vs[0], vs[1], vs[2], vs[3], root, vs[4], vs[5], vs[1], vs[2], root, vs[2], vs[0], vs[5], root))
+		key := fmt.Sprintf("analysed %x", vs)
+		v := r.Check(func() *h.Viol {
+			mk := func(cat, msg string) *h.Viol {
+				v := &h.Viol{Fingerprint: "C15/analysed/" + cat, Summary: msg, Key: key, Kind: "names"}
+				v.SetInput(in)
+				return v
+			}
+			on := scanOnce(bytes.NewReader(in), full())
+			plain := scanOnce(bytes.NewReader(in), &Opts{NameArguments: true})
+			if on.panicked != "" {
+				return mk("panic", "panic: "+firstLine(on.panicked))
+			}
+			if on.snap == nil || plain.snap == nil {
+				return mk("no-snapshot", "no snapshot")
+			}
+			if cat, msg := checkNames(on.snap); cat != "" {
+				return mk(cat, "with path guessing and source analysis on: "+msg)
+			}
+			a, b := collectOcc(on.snap), collectOcc(plain.snap)
+			if len(a) != len(b) {
+				return mk("occurrences", "source analysis changes the number of arguments")
+			}
+			for i := range a {
+				if a[i] != b[i] {
+					return mk("analysis-changes-names", fmt.Sprintf("argument %d is %+v with source analysis on and %+v with naming alone", i, a[i], b[i]))
+				}
+			}
+			return nil
+		})
+		out := "ok"
+		if v != nil {
+			out = v.Fingerprint
+		}
+		r.Record(key, true, out)
 	}
 }
